@@ -53,8 +53,8 @@ func init() {
 		Promises: func(core.Tier) map[string][]string {
 			return map[string][]string{"route": {"Snapshot+RestoreSnapshot", "Snapshot+RestoreFromReader", "SnapshotInTx+RestoreSnapshot", "SnapshotInTx+RestoreFromReader", "StreamToWriter+RestoreSnapshot", "StreamToWriter+RestoreFromReader"},
 				"porcupine": {"ok"}, "snapshot_path": {"path already holds an earlier snapshot"},
-				"restore_reader":         {"bytes.Reader", "data+EOF together", "half reads", "4096-byte chunks, EOF with the last", "single read with EOF"},
-				"timeline_after_restore": {"round 0, start initialised", "round 0, start never requested", "round 0, start default on empty", "round 1, start never requested", "failing id function first"}}
+				"restore_reader":         {"*os.File", "the same file a second time", "bytes.Reader", "data+EOF together", "half reads", "4096-byte chunks, EOF with the last", "single read with EOF"},
+				"timeline_after_restore": {"round 0, start initialised", "round 0, start never requested", "round 0, start default on empty", "round 1, start never requested", "failing id function first", "two concurrent requests"}}
 		},
 		MinCounters: func(core.Tier) map[string]int64 {
 			return map[string]int64{"restores_sequential": 30, "reads_overlapping_a_restore": 20, "restores_concurrent": 30}
@@ -113,9 +113,17 @@ func c17Sequential(c *core.Ctx, idx int) {
 		db.AddRestoreListener(func() { listenerCalls[i].Add(1) })
 	}
 	baseline := settledGoroutines()
+	keptFile, keptIgnoreMeta := "", false
+	var keptDump *dump.Dump
 	// timeline id before anything: initIfEmpty creates one, a second call returns it
 	idCalls := 0
-	idF := func() (string, error) { idCalls++; return fmt.Sprintf("timeline-%d-%d", idx, idCalls), nil }
+	var idMu sync.Mutex
+	idF := func() (string, error) {
+		idMu.Lock()
+		defer idMu.Unlock()
+		idCalls++
+		return fmt.Sprintf("timeline-%d-%d", idx, idCalls), nil
+	}
 	// three starting points: a timeline id exists before the first snapshot, none was ever requested, or it was
 	// only asked for in default mode (which leaves the database without one)
 	tlStart := []string{"initialised", "never requested", "default on empty"}[(idx/6)%3]
@@ -211,7 +219,7 @@ func c17Sequential(c *core.Ctx, idx int) {
 		} else {
 			// readers differ in how they report the end: on a separate empty read, together with the last bytes, in
 			// small pieces
-			kinds := []string{"bytes.Reader", "data+EOF together", "one byte at a time", "half reads", "4096-byte chunks, EOF with the last", "single read with EOF"}
+			kinds := []string{"bytes.Reader", "data+EOF together", "one byte at a time", "half reads", "4096-byte chunks, EOF with the last", "single read with EOF", "*os.File"}
 			readerKind = kinds[(idx*7+round*5+idx/6)%len(kinds)]
 			if len(snapBytes) > 1<<20 && readerKind == "one byte at a time" {
 				readerKind = "half reads"
@@ -229,6 +237,19 @@ func c17Sequential(c *core.Ctx, idx int) {
 				rd = &eofChunkReader{data: snapBytes, chunk: 4096}
 			case "single read with EOF":
 				rd = &eofChunkReader{data: snapBytes, chunk: len(snapBytes) + 1}
+			case "*os.File":
+				// the caller's own snapshot file, which it keeps: restoring from it a second time later must give the same state
+				srcPath := e.Path + fmt.Sprintf(".restore-src-%d", round)
+				if err := os.WriteFile(srcPath, snapBytes, 0600); err == nil {
+					if f, err := os.Open(srcPath); err == nil {
+						defer f.Close()
+						rd = f
+						if keptFile == "" {
+							keptFile, keptDump, keptIgnoreMeta = srcPath, dA, route != "StreamToWriter"
+						}
+					}
+				}
+				defer os.Remove(srcPath)
 			}
 			db.RestoreFromReader(rd)
 		}
@@ -276,8 +297,21 @@ func c17Sequential(c *core.Ctx, idx int) {
 			// the request after a restore and the ones following it, in either non-forcing mode
 			modes := []boltz.TimelineMode{boltz.TimelineModeDefault, boltz.TimelineModeInitIfEmpty}
 			m1, m2 := modes[(idx/2+round)%2], modes[(idx/4)%2]
-			a, err1 := db.GetTimelineId(m1, idF)
-			b, err2 := db.GetTimelineId(m2, idF)
+			var a, b string
+			var err1, err2 error
+			if (idx/5+round)%3 == 1 {
+				// two callers at once (e.g. two restore listeners): still one fresh id, the same for both
+				slowIdF := func() (string, error) { time.Sleep(3 * time.Millisecond); return idF() }
+				var wg sync.WaitGroup
+				wg.Add(2)
+				go func() { defer wg.Done(); a, err1 = db.GetTimelineId(m1, slowIdF) }()
+				go func() { defer wg.Done(); b, err2 = db.GetTimelineId(m2, slowIdF) }()
+				wg.Wait()
+				c.Cover("timeline_after_restore", "two concurrent requests")
+			} else {
+				a, err1 = db.GetTimelineId(m1, idF)
+				b, err2 = db.GetTimelineId(m2, idF)
+			}
 			b2, err3 := db.GetTimelineId(boltz.TimelineModeDefault, idF)
 			c.Eval()
 			info["timeline_start"] = tlStart
@@ -296,6 +330,26 @@ func c17Sequential(c *core.Ctx, idx int) {
 		e.RunTx(e.GenTx(r, 3, false), "C17 after restore")
 	}
 	e.Check("C17 after restore", nil)
+	// the snapshot file a restore was fed from is still the caller's: restoring it again, after all those transactions,
+	// gives the state it was taken at
+	if keptFile != "" {
+		if f, err := os.Open(keptFile); err == nil {
+			quiesce(baseline)
+			db.RestoreFromReader(f)
+			_ = f.Close()
+			quiesce(baseline)
+			c.Eval()
+			c.Cover("restore_reader", "the same file a second time")
+			ignore := metaIgnore
+			if !keptIgnoreMeta {
+				ignore = nil
+			}
+			if diff := dump.Diff(keptDump, dumpDb(e), ignore, 6); len(diff) > 0 {
+				c.Violationf("C17 restoring the same snapshot file a second time gives another state", map[string]any{"cfg": cfg.String()}, "diff: %v", diff)
+			}
+			e.Resync()
+		}
+	}
 }
 
 // ---- concurrent part ----
